@@ -133,9 +133,9 @@ func (w *w1) netS2C() bool {
 			// the serving call returned: the carrier ends for the client
 			w.s2cEnded = true
 			if w.s.serveRes == "nil" {
-				w.c.step("c.eof", func() { w.c.end.in.end(io.EOF); synctest.Wait(); w.c.onStep() })
+				w.c.step("c.eof", func() { w.c.end.endCarrier(io.EOF); synctest.Wait(); w.c.onStep() })
 			} else {
-				w.c.step("c.fail", func() { w.c.end.in.end(errors.New("carrier broke")); synctest.Wait(); w.c.onStep() })
+				w.c.step("c.fail", func() { w.c.end.endCarrier(errors.New("carrier broke")); synctest.Wait(); w.c.onStep() })
 			}
 			return true
 		}
@@ -358,7 +358,7 @@ func runW1Scenario(t *testing.T, ops *opsWriter, rng *rand.Rand, steps int) {
 					default: // the client notices first
 						w.s2c = nil
 						w.s2cEnded = true
-						w.c.step("c.fail", func() { w.c.end.in.end(errors.New("carrier broke")) })
+						w.c.step("c.fail", func() { w.c.end.endCarrier(errors.New("carrier broke")) })
 						w.c2s = nil
 						w.s.step("s.fail", func() { w.s.end.in.end(errors.New("carrier broke")) })
 					}
